@@ -244,6 +244,8 @@ op("twice_cum", "df", lambda x: x["b"].cumsum() + x["b"].cummax(), osens=True, t
 op("scalar_chain", "df", lambda x: x["a"] * ((x["b"].sum() + 1) * 2 - 3) + x["u"] * ((x["u"].max() + 1) * 2), tier=2, tags=("nested",))
 op("scalar_chain2", "df", lambda x: (x[["a", "u"]] - (x["a"].min() * 2 + 1)) / ((x["u"].max() - 1) * 0.5 + 2), tier=2, tags=("nested",))
 op("reopt_combine", "df", lambda x: ((x["a"] + 1) * 2).optimize() - x["b"] * 3 if not isinstance(x, pd.DataFrame) else ((x["a"] + 1) * 2) - x["b"] * 3, tier=2, tags=("nested",))
+op("reopt_scalar_bcast", "df", lambda x: x["a"] / ((x["a"].sum() + 1) * 2).optimize() if not isinstance(x, pd.DataFrame) else x["a"] / ((x["a"].sum() + 1) * 2), tier=2, tags=("nested",))
+op("reopt_inner_cum", "df", lambda x: x["b"].cumsum() - ((x["a"].cumsum() + 1) * 2).optimize() if not isinstance(x, pd.DataFrame) else x["b"].cumsum() - ((x["a"].cumsum() + 1) * 2), osens=True, tier=2, tags=("nested",))
 op("reopt_filter", "df", lambda x: (lambda o: o[o["a"] > 1][["a", "b"]])(x.assign(z=x["a"] + 1).optimize()) if not isinstance(x, pd.DataFrame) else x.assign(z=x["a"] + 1)[x["a"] > 1][["a", "b"]], tier=2, tags=("nested",))
 op("twice_partitions", "any", lambda x: _concat([x.partitions[[0]], x.partitions[[1]]]), pd=None, tags=("twice", "daskonly", "psens"), tier=2)
 
